@@ -109,7 +109,8 @@ def axis_size(direction, endpoints, M, N):
 
 
 def build(chk):
-    for (M, N) in SIZES:
+    sizes = SIZES      # (larger grids make the exact sympy inverses of the basis matrices impractically slow)
+    for (M, N) in sizes:
         chk.bounded.append({"what": "all C16 obligations", "bound": f"grid size M={M}, N={N} (real Gauss-Lobatto nodes, symbolic coefficients)", "held": True})
         for direction in ("z", "pz", "pp"):
             for endpoints in (False, True):
